@@ -608,3 +608,33 @@ def r14_bottom_clamp_siblings(ck, P, rid='C12-R14'):
                 ck.violation(R, fn, 'bottom clamp', '%s replaces a bottom coordinate that lies at or below the image height by %s instead of 65536*height - 1: the shape is cut at the top of the last row (or elsewhere), so the sample rows inside the last image row get no coverage and the function disagrees with its sibling for the same shape' % (fn, fmt(lf)), t.loc())
     if n == 0:
         raise AnalysisBroken('%s: no clamp of a bottom coordinate against the image height found in pixman-trap.c' % rid)
+
+
+def r15_edge_offset_in_wide_type(ck, P, rid='C12-R15'):
+    """T-WID: the edge rasterisers add constants to an edge's x coordinate (the a1 rounding offset) before they clip it to the image; an edge
+    coordinate may be anywhere in the 16.16 range, so the sum is formed in a type wider than the coordinate."""
+    R = ck.rule(rid, 'in the edge rasterisers (pixman-edge.c, pixman-edge-accessors.c) every addition of a non-zero constant to an x coordinate loaded from a pixman_edge_t is performed in 64 bits (the coordinate is widened first): in 32 bits an edge at x >= 32767.5 plus the rounding offset 0x7fff becomes negative, and the span is dropped instead of being clipped to the image', floor=4)
+    n = 0
+    for un in ('pixman-edge.c', 'pixman-edge-accessors.c'):
+        u = P.units.get(un)
+        if u is None:
+            continue
+        for fn, f in sorted(u.functions.items()):
+            for x in f.insts():
+                if x.op not in ('add', 'sub'):
+                    continue
+                cs = [a for a in x.a if a[0] == 'c' and int(a[1]) != 0]
+                ot = [a for a in x.a if a[0] != 'c']
+                if len(cs) != 1 or len(ot) != 1:
+                    continue
+                y = f.v(f.strip_casts(ot[0]))
+                if y is None or y.op != 'load' or f.last_field(f.path(y.a[0])) != 'pixman_edge.x':
+                    continue
+                n += 1; ck.saw(f)
+                where = '%s/%s: %s at %s' % (un, fn, x.op, x.loc())
+                if x.ty == 'i64':
+                    ck.ok(R, where, '64-bit')
+                else:
+                    ck.violation(R, fn, 'offset added to an edge coordinate at %s' % x.loc(), '%s adds %d to an edge x coordinate in %s before the coordinate is clipped: for x >= %.5f the sum wraps to a negative value, the "right of left" test fails and the span - including its part inside the image - gets no coverage' % (fn, int(cs[0][1]), x.ty, (0x7fffffff - int(cs[0][1]) + 1) / 65536.0), x.loc())
+    if n == 0:
+        raise AnalysisBroken('%s: no constant added to a pixman_edge_t x coordinate in the edge rasterisers' % rid)
